@@ -767,16 +767,16 @@ func Scenarios() []drv.Scenario {
 			Body: body(cfg{engine: "scorch", writers: 2, batches: 2}), Quick: d1r,
 			Thorough: []drv.Phase{{Bound: 1}, {Bound: 2, Filter: "restricted"}}},
 		{Name: "S3-writer-searcher-aggressive-merge", Doc: "1 writer × 3 batches (updates + deletes of earlier segments) ∥ reader + searcher; merge plan forcing file merges after every batch",
-			Body: body(cfg{engine: "scorch", conf: aggressive, writers: 1, batches: 3, searcher: true}), Quick: d1,
+			Body: body(cfg{engine: "scorch", conf: aggressive, writers: 1, batches: 3, searcher: true}), Quick: d1r,
 			Thorough: []drv.Phase{{Bound: 1}, {Bound: 2, Filter: "restricted"}}},
 		{Name: "S2-writer-reader-forcemerge", Doc: "1 writer × 3 batches ∥ long-lived reader ∥ ForceMerge",
-			Body: body(cfg{engine: "scorch", writers: 1, batches: 3, forceMrg: true}), Quick: d1,
+			Body: body(cfg{engine: "scorch", writers: 1, batches: 3, forceMrg: true}), Quick: d1r,
 			Thorough: []drv.Phase{{Bound: 1}, {Bound: 2, Filter: "restricted"}}},
 		{Name: "S4-unsafe-two-persister-workers", Doc: "2 writers × 2 unsafe batches ∥ reader; 2 persister workers with in-memory merges",
 			Body: body(cfg{engine: "scorch", conf: unsafe2, writers: 2, batches: 2}), Quick: d1r,
 			Thorough: []drv.Phase{{Bound: 1}, {Bound: 2, Filter: "restricted"}}},
 		{Name: "S6-batch-lands-while-file-merge-in-flight", Doc: "writer ∥ background file merge parked (public event callback) between building the merged segment and its introduction; a batch obsoleting documents of the merge inputs lands in between",
-			Body: bodyGated(aggressive, false), Quick: d1, Thorough: []drv.Phase{{Bound: 1}, {Bound: 2, Filter: "restricted"}}},
+			Body: bodyGated(aggressive, false), Quick: d1r, Thorough: []drv.Phase{{Bound: 1}, {Bound: 2, Filter: "restricted"}}},
 		{Name: "S7-batch-lands-while-forced-merge-in-flight", Doc: "the same with merging suppressed and a ForceMerge thread",
 			Body: bodyGated(nomerge, true), Quick: d1, Thorough: []drv.Phase{{Bound: 1}, {Bound: 2, Filter: "restricted"}}},
 		{Name: "S8-delete-only-batch-lands-in-persist-window", Doc: "two unsafe batches pile up behind a parked persister; it is released together with a low-priority delete-only batch; readers before, during and after",
@@ -784,7 +784,7 @@ func Scenarios() []drv.Scenario {
 		{Name: "S9-delete-only-batch-lands-in-persist-window-legacy-flush", Doc: "the same with one persister worker (legacy one-shot in-memory merge + flush)",
 			Body: bodyPersistWindow(map[string]interface{}{"unsafe_batch": true}), Quick: d1r, Thorough: []drv.Phase{{Bound: 1}, {Bound: 2, Filter: "restricted"}}},
 		{Name: "S5-upsidedown-gtreap", Class: "upsidedown", Doc: "2 writers × 2 batches ∥ reader + searcher on upsidedown/gtreap",
-			Body: body(cfg{engine: "upsidedown", writers: 2, batches: 2, searcher: true}), Quick: d1,
+			Body: body(cfg{engine: "upsidedown", writers: 2, batches: 2, searcher: true}), Quick: d1r,
 			Thorough: []drv.Phase{{Bound: 2}}},
 	}, same...)
 }
